@@ -590,7 +590,6 @@ func c13Concurrency(x *c13Run) {
 	x.rep.Outcome("concurrency-caps")
 }
 
-
 // sealPacket wraps a plaintext message the way a sender configured with c would.
 func sealPacket(c rcfg, plain []byte) []byte {
 	out := plain
